@@ -31,6 +31,7 @@ package ringbuffer
 //@ func New(size)
 //@   props C14
 //@   constructs
+//@   modifies
 //@   requires[C14.new.size] size >= 1
 //@   ensures[C14.new.inv] ringInv(result)
 //@   ensures[C14.new.empty] result.len == 0
